@@ -77,7 +77,7 @@ pub fn classify(p: &Prog) -> Option<&'static str> {
 }
 
 /// evaluate one program against model, analyzer and VM
-pub fn check_case(p: &Prog, model_line: &str, report: &mut Report, prop: &str) -> CaseResult {
+pub fn check_case(p: &Prog, model_line: &str, report: &mut Report, _prop: &str) -> CaseResult {
     let r = p.render();
     let input = json!({"tokens": r.tokens, "lua": r.lua});
     let class = classify(p);
@@ -116,9 +116,7 @@ pub fn check_case(p: &Prog, model_line: &str, report: &mut Report, prop: &str) -
         if real_s != model_s && tie_ok {
             tie_ok = false;
             // a disagreement inside a known finding's predicate is part of that finding, not a new one
-            if class.is_some() && prop == "C41" {
-                report.count("tie_skipped_in_known_class");
-            } else {
+            {
                 report.mismatch(json!({
                     "input": input, "what": "TypeAt (model) differs from infer_expr (implementation)",
                     "probe": pt.id, "var": pt.var, "model": model_s, "impl": real_s, "impl_human": pt.human,
@@ -135,6 +133,12 @@ pub fn check_case(p: &Prog, model_line: &str, report: &mut Report, prop: &str) -
         }
     };
     let sem: Vec<(i64, String)> = model.trace.iter().map(|(i, v)| (*i, val_atom(v).to_string())).collect();
+    // second reference, independent of the model: the harness-side interpreter
+    if let Some(own) = crate::interp::run(p, 100_000) {
+        if own != vm {
+            report.mismatch(json!({"input": input, "what": "harness interpreter trace differs from the VM trace", "interp": format!("{:?}", own), "vm": format!("{:?}", vm)}));
+        }
+    }
     if sem != vm {
         report.mismatch(json!({"input": input, "what": "Sem (model) trace differs from the VM trace", "model": format!("{:?}", sem), "vm": format!("{:?}", vm)}));
     } else {
@@ -178,7 +182,10 @@ pub fn check_case(p: &Prog, model_line: &str, report: &mut Report, prop: &str) -
 }
 
 pub fn run_batch(progs: &[Prog], report: &mut Report, seen: &mut HashSet<String>, prop: &str) {
-    let reqs: Vec<String> = progs.iter().map(|p| format!("flow.run {}", p.render().tokens)).collect();
+    let reqs: Vec<String> = progs
+        .iter()
+        .map(|p| if prop == "C41" { format!("flow.runl {} 400", p.render().tokens) } else { format!("flow.run {}", p.render().tokens) })
+        .collect();
     let answers = vh_common::run_driver(&reqs);
     for (p, a) in progs.iter().zip(answers.iter()) {
         report.evaluations += 1;
